@@ -249,7 +249,7 @@ class S:
             ret = (" -> " + self.ty()) if self.chance(0.3) else ""
             return "fn(%s)%s %s" % (", ".join(ps), ret, self.block(d - 1, ind))
         if k == 23:
-            return "%s?" % self.pick([self.name(), "(%s %s %s)" % (self.atom(d, ind), self.pick(BINOPS), self.atom(d, ind)), "foo(%s)" % self.args(d)])
+            return "%s?" % self.pick([self.name(), "(%s)" % e(), "foo(%s)" % self.args(d)])
         if k == 24:
             return self.block(d - 1, ind, bare=False)     # a block used as a value: see known finding fmt:bare-fail-in-parentheses
         if k == 25:
@@ -270,7 +270,7 @@ class S:
         if k == 4:
             return "expect %s" % e()
         if k == 5:
-            return "trace %s%s" % (self.pick([self.string_lit(), self.name(), "foo(%s)" % self.expr(d - 1, ind)]),
+            return "trace %s%s" % (self.pick([self.string_lit(), self.name(), "(%s)" % e(), "foo(%s)" % self.expr(d - 1, ind)]),
                                    self.pick(["", ": " + self.name(), ": %s, %s" % (self.name(), self.int_lit())]))
         if k == 6:
             return "let %s <- %s(%s)" % (self.pick([self.name(), "_", "(a, b)", "Foo { a, .. }"]), self.pick(["foo", "and_then"]), self.args(d))
